@@ -32,16 +32,16 @@ def run(ctx):
     )
     run.trusted_base = ["CPython ast", "spec/stix20.json, spec/stix21.json, spec/registries.json"]
     run.assumptions = ["simplejson honours `cls=`/item_sort_key as documented (third party, not analysed)"]
-    rule_registry(ctx)
-    rule_version_detectable(ctx)
-    rule_encoders(ctx)
-    rule_defaulted(ctx)
-    rule_order_and_precision(ctx)
+    ctx.do(rule_registry)
+    ctx.do(rule_version_detectable)
+    ctx.do(rule_encoders)
+    ctx.do(rule_defaulted)
+    ctx.do(rule_order_and_precision)
     # what is serialised parses back to an equal object only if construction already truncated every timestamp to what
     # the serialiser will write: the truncation pipeline (C15) is a necessary condition of the round trip
     from . import C15
-    C15.rule_truncate(ctx, rule_id="C01.timestamp-pipeline")
-    C15.rule_property_forward(ctx, rule_id="C01.timestamp-pipeline")
+    ctx.do(C15.rule_truncate, rule_id="C01.timestamp-pipeline")
+    ctx.do(C15.rule_property_forward, rule_id="C01.timestamp-pipeline")
 
 
 # ---------------------------------------------------------------------------
